@@ -52,7 +52,7 @@ struct State {
     std::vector<std::string> choices;   // description of choice decisions
     uint64_t insns = 0;
     uint64_t timeCtr = 0;
-    bool assertedSomething = false;
+    bool assertedSomething = false; bool assertedAny = false;
     std::vector<std::pair<std::string, z3::expr>> known;
     std::unordered_map<unsigned, bool> fact;   // conditions already decided on this path (expr id -> value); monotone because the PC only grows   // known-finding predicates declared by the harness on this path
 };
@@ -112,7 +112,7 @@ public:
     uint64_t qHeavy = 0; double slowestQ = 0; uint64_t qRetry = 0; uint64_t stratWins[3] = {0, 0, 0};
     std::map<std::string, std::pair<uint64_t, double>> profile;
     uint64_t qTotal = 0, qSat = 0, qUnsat = 0, qUnknown = 0; double solverS = 0;
-    uint64_t assertsChecked = 0, assertsSymbolic = 0, pathsWithSymAssert = 0;
+    uint64_t assertsChecked = 0, assertsSymbolic = 0, pathsWithSymAssert = 0, pathsWithAssert = 0;
     std::vector<std::string> samplePaths;
     std::vector<std::vector<std::string>> concreteTraces;
     std::vector<std::vector<std::string>> pathTraces;
